@@ -52,14 +52,14 @@ func (f *Maplist) Call(s *slip.Scope, args slip.List, depth int) (result slip.Ob
 
 	pos++
 	list, ok := args[pos].(slip.List)
-	if !ok {
+	if !ok && args[pos] != nil {
 		slip.TypePanic(s, depth, "lists", args[pos], "list")
 	}
 	var rlist slip.List
 	min := len(list)
 	var l2 slip.List
 	for i := 1; i < len(args); i++ {
-		if l2, ok = args[i].(slip.List); !ok {
+		if l2, ok = args[i].(slip.List); !ok && args[i] != nil {
 			slip.TypePanic(s, depth, "lists", args[i], "list")
 		}
 		if len(l2) < min {
@@ -70,7 +70,7 @@ func (f *Maplist) Call(s *slip.Scope, args slip.List, depth int) (result slip.Ob
 	ca := make(slip.List, len(args)-1)
 	for n := 0; n < min; n++ {
 		for i := 1; i < len(args); i++ {
-			l2 := args[i].(slip.List)
+			l2, _ := args[i].(slip.List)
 			ca[i-1] = l2[n:]
 		}
 		if rlist[n] = slip.PrimaryValue(caller.Call(s, ca, d2)); slip.IsExit(rlist[n]) {
